@@ -14,20 +14,21 @@ from vlib import core
 from vlib.core import cz, cnat, cbool, copt, clist
 
 MANIFEST = dict(
-    text='Theorems (Coq, all inputs): the recursion guard, default frame limit, default depth and truncation marker of einfo.Traceback as translated from einfo.py on every run equal the model; BUILDING THE RECORD IS TOTAL: how every attribute of the stand-ins _Frame/_Code/Traceback is read from the live object (literal, obj.attr, obj.ns.get(k[,d]), obj.ns[k], try/except KeyError) is translated on every run, and executed on live frames whose f_globals/f_locals are arbitrary dicts (code run by exec/eval: no __name__, no __file__, no __loader__) these reads never raise and build the stand-in with the (file, name, line) triple verbatim, __file__ = live value or "__main__", __name__ = live value or None; Traceback(tb) on any non-empty live traceback returns a chain whose (file, name, line) part is the chain of the depth theorems, and a task raising a picklable exception through such frames yields ACK + one READY carrying the record; the stand-in chain has at most recursionlimit//8 + 3 nodes and is the first limit+2 live frames followed by the marker iff the live chain is longer; for every exception class that reproduces itself from its args and every n >= 1, n pickle round trips of an ExceptionInfo keep type, exception class, args, attributes, traceback text and tb chain, and nothing changes after the second; the same stated for picklable records only (every record along the chain is again picklable), an unpicklable record is never sent; COUNTERFACTUAL (switch value false = the tree before the repair of D20): MaybeEncodingError args are re-repr()ed on every round trip, for ever; the body of MaybeEncodingError.__reduce__ and of its rebuild function, as matched on this run, returns a constructed object unchanged; MAIN CLAUSE: a task raising a picklable exception (any class) yields ACK + exactly one READY(ok=False) carrying the record with type, wrapped exception, text and the copied traceback (<= limit+3 nodes), and for every k >= 1 the k-fold round trip of that record exists, is picklable and has exactly that type, class, args, attributes, text and chain; a task raising an unpicklable exception is answered by exactly one READY carrying the MaybeEncodingError record, which survives every k >= 1 round trips; a result whose READY cannot be sent yields exactly one READY carrying a MaybeEncodingError record and the worker loop continues; with a working pipe every accepted task gets exactly one READY. Correspondence: real exceptions x argument tuples x traceback depths 1..300 (thorough ..900 and RecursionError) x 1..5 pickle round trips, Traceback(max_frames=m), MaybeEncodingError(a, b), and the real Worker.workloop in-process over scripted requests with a really-pickling outq; the call chains run over ordinary functions and 14 unusual frame kinds (functions and module code run by exec/eval in fresh or odd globals, lambda, generator expression, generator, class body, under sorted(key=)/map, __traceback_hide__, raise-from and raise-in-handler chaining), with the live and stand-in frame namespaces compared (kind ns) and monitors for "building the record raised" and "a task outcome killed the worker". KNOWN FINDING F-C12-2 (modelled, refuted, replayed on every run): the stand-in frames copy the raw values of __file__/__name__/__traceback_hide__, which are pickled with the record; C12_own_exception_delivered_refuted (a picklable exception raised through a frame whose hide marker does not pickle is answered by the MaybeEncodingError record), C12_own_exception_delivered_partial (delivered when all copied namespace values pickle), C12_namespace_value_reported_as_encoding_error; deterministic wl/nsput cases with such frames on every run, judged by a trace-only monitor (own type/args must reach the caller).',
+    text='Theorems (Coq, all inputs): the recursion guard, default frame limit, default depth and truncation marker of einfo.Traceback as translated from einfo.py on every run equal the model; BUILDING THE RECORD IS TOTAL: how every attribute of the stand-ins _Frame/_Code/Traceback is read from the live object (literal, obj.attr, obj.ns.get(k[,d]), obj.ns[k], try/except KeyError) is translated on every run, and executed on live frames whose f_globals/f_locals are arbitrary dicts (code run by exec/eval: no __name__, no __file__, no __loader__) these reads never raise and build the stand-in with the (file, name, line) triple verbatim, __file__ = live value or "__main__", __name__ = live value or None; Traceback(tb) on any non-empty live traceback returns a chain whose (file, name, line) part is the chain of the depth theorems, and a task raising a picklable exception through such frames yields ACK + one READY carrying the record; the stand-in chain has at most recursionlimit//8 + 3 nodes and is the first limit+2 live frames followed by the marker iff the live chain is longer; for every exception class that reproduces itself from its args and every n >= 1, n pickle round trips of an ExceptionInfo keep type, exception class, args, attributes, traceback text and tb chain, and nothing changes after the second; the same stated for picklable records only (every record along the chain is again picklable), an unpicklable record is never sent; COUNTERFACTUAL (switch value false = the tree before the repair of D20): MaybeEncodingError args are re-repr()ed on every round trip, for ever; the body of MaybeEncodingError.__reduce__ and of its rebuild function, as matched on this run, returns a constructed object unchanged; MAIN CLAUSE: a task raising a picklable exception (any class) yields ACK + exactly one READY(ok=False) carrying the record with type, wrapped exception, text and the copied traceback (<= limit+3 nodes), and for every k >= 1 the k-fold round trip of that record exists, is picklable and has exactly that type, class, args, attributes, text and chain; a task raising an unpicklable exception is answered by exactly one READY carrying the MaybeEncodingError record, which survives every k >= 1 round trips; a result whose READY cannot be sent yields exactly one READY carrying a MaybeEncodingError record and the worker loop continues; with a working pipe every accepted task gets exactly one READY. Correspondence: real exceptions x argument tuples x traceback depths 1..300 (thorough ..900 and RecursionError) x 1..5 pickle round trips, Traceback(max_frames=m), MaybeEncodingError(a, b), and the real Worker.workloop in-process over scripted requests with a really-pickling outq; the call chains run over ordinary functions and 14 unusual frame kinds (functions and module code run by exec/eval in fresh or odd globals, lambda, generator expression, generator, class body, under sorted(key=)/map, __traceback_hide__, raise-from and raise-in-handler chaining), with the live and stand-in frame namespaces compared (kind ns) and monitors for "building the record raised" and "a task outcome killed the worker". HISTORIES (one process records many failures): Model/EInfoSeq.v gives traceback nodes what they say about their code object (co_firstlineno, f_lineno, tb_lasti, the co_positions() entry of the failing instruction) and runs the constructor over a list of failures, handing it the history each time; C12_history_independent / C12_record_order_irrelevant / C12_record_describes_its_failure (true by construction of the model: its constructor ignores the history), C12_code_copy_reads_own_code_object (the reads of Traceback/_Frame/_Code as translated on this run copy these attributes from the parameter of that very call, f_code = self.Code(frame.f_code)), and the STRUCTURAL theorem C12_code_standins_keep_no_state (syntax of einfo.py extracted on this run: no mutable class-level binding in the record classes, no constructor statement that could keep something for the next call, constructors reach modules/classes/functions/builtins/plain values only). Correspondence kind seq + worker-loop scripts with recompiled tasks: 2-6 failures recorded one after the other in ONE driver process through code compiled afresh per step under one file name (compile/exec def, re-executed module, lambdas and generator expressions on one line, generated methods, real dataclasses), i.e. through DIFFERENT code objects with equal (co_filename, co_name, co_firstlineno); every record is compared, independently of the model, node by node (file, name, tb_lineno, co_firstlineno, f_lineno, tb_lasti, position) and as formatted by traceback.extract_tb / format_exception with the live traceback of its own failure (taken before the record is built), before and after pickle round trips; signature C12:record-describes-another-code-object (also Gallina monitor EInfoSeq.mon_step, code 9). KNOWN FINDING F-C12-2 (modelled, refuted, replayed on every run): the stand-in frames copy the raw values of __file__/__name__/__traceback_hide__, which are pickled with the record; C12_own_exception_delivered_refuted (a picklable exception raised through a frame whose hide marker does not pickle is answered by the MaybeEncodingError record), C12_own_exception_delivered_partial (delivered when all copied namespace values pickle), C12_namespace_value_reported_as_encoding_error; deterministic wl/nsput cases with such frames on every run, judged by a trace-only monitor (own type/args must reach the caller).',
     note='Trusted: Coq kernel; translate/kernels/einfo.py (structural matcher + pykernel expression translator); harness/einfo_driver.py; pickle and the traceback module themselves (the text is an oracle; "the standard module can format the stand-in tb" is validated on every case, not proved); repr() of non-str objects is an oracle, repr of str is modelled for ASCII code points; exception classes whose constructor does not reproduce the object from its args are outside the statement. All theorems Closed under the global context.',
     technique='Coq proof over translator-regenerated kernel + differential correspondence + Gallina monitor on implementation traces',
     ref='5.12',
 )
 
 HEADER = '''From Coq Require Import ZArith List Bool.
-From BV Require Import Lib.Cases Model.EInfo.
+From BV Require Import Lib.Cases Model.EInfo Model.EInfoSeq.
 Import ListNotations. Open Scope Z_scope.
-Definition check_case := EInfo.check_both.'''
+Definition check_case := EInfoSeq.check_scase.'''
 
 MEE = 'billiard.pool.MaybeEncodingError'
 SIG_D20 = 'C12:maybe-encoding-error-args-unstable'
 SIG_NSVAL = 'C12:frame-namespace-value-makes-record-unpicklable'     # known finding F-C12-2
+SIG_STALE = 'C12:record-describes-another-code-object'
 
 PLAIN_CLASSES = ['ValueError', 'KeyError', 'RuntimeError', 'TypeError', 'ZeroDivisionError',
                  'AssertionError', 'LookupError', 'IndexError', 'StopIteration', 'ArithmeticError',
@@ -131,13 +132,32 @@ def has_unp(j):
     return False
 
 
+def conode(n):
+    return '(%s, %s, %s, %s, %s, %s, %s)' % (cz(n[0]), cz(n[1]), cz(n[2]), cz(n[3]), cz(n[4]), cz(n[5]),
+                                             clist(n[6], cz))
+
+
+def crt(o, reclimit):
+    sh = Share()
+    return sh.wrap('CaseRT %s %s %s %s %s %s %s' % (
+        ctab(o['strs']), cz(reclimit), ccls(o['live_exc']['cls']), cexc(o['live_exc'], sh),
+        sh(crle(o['live'])), cz(o['live_text']), clist(o['views'], lambda v: cview(v, sh))))
+
+
 def to_coq(c, o):
+    """a term of Model.EInfoSeq.scase: a history (kind seq), or One <case of Model.EInfo>"""
+    if c['kind'] == 'seq':
+        return '(Seq %s)' % clist(o['steps'], lambda so: '(mk_step %s %s %s)' % (
+            crt(so, o['reclimit']), clist(so['nodes_live'], conode),
+            clist(so['nodes'], lambda ch: clist(ch, conode))))
+    return '(One %s)' % to_coq_one(c, o)
+
+
+def to_coq_one(c, o):
     k = c['kind']
     sh = Share()
     if k == 'rt':
-        return sh.wrap('CaseRT %s %s %s %s %s %s %s' % (
-            ctab(o['strs']), cz(o['reclimit']), ccls(o['live_exc']['cls']), cexc(o['live_exc'], sh),
-            sh(crle(o['live'])), cz(o['live_text']), clist(o['views'], lambda v: cview(v, sh))))
+        return crt(o, o['reclimit'])
     if k == 'tb':
         return sh.wrap('CaseTB %s %s %s %s' % (ctab(o['strs']), cz(c['m']), sh(crle(o['live'])),
                                                clist(o['chains'], lambda r: sh(crle(r)))))
@@ -377,6 +397,90 @@ def gen_wl(rng):
     return dict(kind='wl', maxtasks=rng.choice([None, None, None, 1, 2, 3]), env=env, script=script)
 
 
+# ---- histories (kind seq): several failures recorded one after the other in ONE driver process, through
+# ---- freshly compiled code objects that share (file name, function name, first line) and differ in body
+SEQ_SHAPES = ['def', 'reload', 'lambda', 'genexpr', 'method']
+_GEN_UNSAFE = ('StopIteration', 'GeneratorExit')      # PEP 479 turns them into RuntimeError inside a generator
+
+
+def gen_seq_exc(rng):
+    e = gen_exc(rng)
+    if e[0] in _GEN_UNSAFE:
+        e[0] = 'ValueError'
+    return e
+
+
+def gen_seq_step(rng, shape):
+    st = dict(shape=shape, which=rng.randint(0, 5), depth=rng.choice([0, 0, 0, 1, 3]),
+              pad=rng.choice([0, 0, 1, 2] if shape in ('lambda', 'genexpr') else [0, 0, 1, 2, 3, 5, 8, 12]))
+    if shape == 'def':
+        st['tail'] = rng.choice([0, 0, 2])
+        if rng.random() < 0.15:
+            st['alt'] = 1             # the same source under another file name: equal code, other key
+    return st
+
+
+def gen_seq(rng, tag):
+    shapes = rng.sample(SEQ_SHAPES, rng.choice([1, 1, 2]))
+    steps = []
+    for _ in range(rng.choice([2, 2, 3, 4, 6])):
+        st = gen_seq_step(rng, rng.choice(shapes))
+        st.update(exc=gen_seq_exc(rng), rounds=rng.choice([0, 1, 1, 2, 3]), proto=rng.choice([2, 4, 5]))
+        steps.append(st)
+    return dict(kind='seq', tag=tag, file=rng.randint(0, 2), steps=steps)
+
+
+def gen_wl_seq(rng, tag):
+    """worker-loop script whose raising tasks run through freshly compiled code of one shape"""
+    shape = rng.choice(SEQ_SHAPES)
+    script, job = [], rng.randint(1, 50)
+    fidx = rng.randint(0, 2)
+    for _ in range(rng.randint(2, 4)):
+        job += rng.randint(1, 3)
+        if rng.random() < 0.2:
+            script.append(dict(job=job, i=0, spec=dict(ret=gen_arg(rng))))
+            continue
+        q = gen_seq_step(rng, shape)
+        q.update(tag=tag, file=fidx)
+        script.append(dict(job=job, i=rng.randint(0, 3), spec=dict(exc=gen_seq_exc(rng), seq=q)))
+    return dict(kind='wl', maxtasks=None, env=[], script=script)
+
+
+def _sq(shape, pad, which=0, depth=0, exc=None, rounds=1, **kw):
+    return dict(shape=shape, pad=pad, which=which, depth=depth, rounds=rounds, proto=4,
+                exc=exc or ['ValueError', [{'s': shape}, {'i': pad}], []], **kw)
+
+
+# every shape: short body then long body then short again (the later code objects have the key of the
+# first and another body); the same source under two file names; recursion (one code object, many
+# frames) before and after an edit; the real dataclasses machinery ("<string>", __init__) -- ONE such case
+# per run, "<string>" cannot be made case-local --; and the same through the worker loop
+BOUNDARY_SEQ = [
+    dict(kind='seq', tag=9000 + k, file=k % 3, steps=[
+        _sq(shape, 0, 0, exc=['KeyError', [{'s': 'short'}], []]), _sq(shape, big, 2, rounds=2),
+        _sq(shape, 0, 1, rounds=0), _sq(shape, mid, 1, exc=['UserBase', [{'i': 1}], [['detail', {'s': 'd'}]]])])
+    for k, (shape, mid, big) in enumerate([('def', 3, 9), ('reload', 2, 7), ('lambda', 1, 2), ('genexpr', 1, 2),
+                                           ('method', 2, 6)])]
+BOUNDARY_SEQ += [
+    dict(kind='seq', tag=9010, file=0, steps=[_sq('def', 7, rounds=2), _sq('def', 0, rounds=2)]),      # long, then short
+    dict(kind='seq', tag=9011, file=1, steps=[_sq('def', 3), _sq('def', 3, alt=1), _sq('def', 4, alt=1)]),
+    dict(kind='seq', tag=9012, file=2, steps=[_sq('def', 0, depth=6), _sq('def', 5, depth=6, tail=2),
+                                              _sq('reload', 0, depth=4), _sq('reload', 6, depth=4)]),
+    dict(kind='seq', tag=9013, file=0, steps=[_sq('lambda', 0, 0), _sq('lambda', 0, 1), _sq('lambda', 0, 2),
+                                              _sq('genexpr', 0, 2), _sq('genexpr', 0, 1), _sq('genexpr', 0, 0)]),
+    dict(kind='seq', tag=9014, file=0, steps=[_sq('dataclass', 0, 0), _sq('dataclass', 4, 3), _sq('dataclass', 2, 0)]),
+    dict(kind='wl', maxtasks=None, env=[], script=[
+        dict(job=101, i=0, spec=dict(exc=['KeyError', [{'s': 'short'}], []], seq=dict(shape='def', pad=0, tag=9020, file=0))),
+        dict(job=102, i=0, spec=dict(exc=['ValueError', [{'s': 'long'}, {'i': 7}], []],
+                                     seq=dict(shape='def', pad=7, tag=9020, file=0))),
+        dict(job=103, i=1, spec=dict(ret={'i': 32}))]),
+    dict(kind='wl', maxtasks=None, env=[], script=[
+        dict(job=111, i=0, spec=dict(exc=['ValueError', [{'i': 2}], []], seq=dict(shape='lambda', which=2, tag=9021, file=2))),
+        dict(job=112, i=0, spec=dict(exc=['ValueError', [{'i': 0}], []], seq=dict(shape='lambda', which=0, tag=9021, file=2))),
+        dict(job=113, i=0, spec=dict(exc=['ValueError', [{'i': 1}], []], seq=dict(shape='method', pad=5, which=4, tag=9021, file=2))),
+        dict(job=114, i=0, spec=dict(exc=['ValueError', [{'i': 1}], []], seq=dict(shape='method', pad=1, which=0, tag=9021, file=2)))])]
+
+
 BOUNDARY = (
     # live chain = pattern + 2 driver frames; limit+2 = 127: fits, fits exactly, one too many
     [dict(kind='rt', exc=['ValueError', [{'s': 'edge'}, {'i': n}], []], pat=[[0, n]], rounds=2, proto=4)
@@ -451,9 +555,13 @@ BOUNDARY_NSVAL += [
 
 def gen_cases(rng, n, thorough):
     cases = []
-    for _ in range(n):
+    for k in range(n):
         r = rng.random()
-        if r < 0.42:
+        if r < 0.07:
+            cases.append(gen_seq(rng, k))
+        elif r < 0.10:
+            cases.append(gen_wl_seq(rng, k))
+        elif r < 0.42:
             cases.append(gen_rt(rng, thorough))
         elif r < 0.54:
             cases.append(gen_tb(rng))
@@ -465,7 +573,7 @@ def gen_cases(rng, n, thorough):
             cases.append(gen_wl(rng))
     if thorough:
         cases += [dict(kind='rt', deep=True, rounds=r, proto=p) for r in (1, 5) for p in (2, 5)]
-    return cases + BOUNDARY + BOUNDARY_FRAMES + BOUNDARY_NSVAL
+    return cases + BOUNDARY + BOUNDARY_FRAMES + BOUNDARY_NSVAL + BOUNDARY_SEQ
 
 
 # ---------------------------------------------------------------- judging
@@ -475,7 +583,128 @@ MON = {1: ('roundtrip-changes-type', 'exception type/class changed across a pick
        5: ('depth-bound-exceeded', 'tb chain longer than max_frames + 3'),
        6: ('ready-count', 'READY messages do not match the accepted tasks one to one'),
        7: ('encoding-error-not-reported', 'a task whose result could not be sent was not answered by a MaybeEncodingError record'),
-       8: ('task-outcome-kills-worker', 'nothing in the environment failed, yet the worker loop died while reporting a task')}
+       8: ('task-outcome-kills-worker', 'nothing in the environment failed, yet the worker loop died while reporting a task'),
+       9: ('record-describes-another-code-object',
+           'a record of a history says something else about its code objects (co_firstlineno / f_lineno / tb_lasti / '
+           'position of the failing instruction) than the live traceback of its own failure (Gallina monitor mon_step)')}
+
+
+NODE_FIELDS = ['co_filename', 'co_name', 'tb_lineno', 'co_firstlineno', 'f_lineno', 'tb_lasti',
+               'co_positions() entry of the failing instruction (line, end line, column, end column)']
+
+
+def node_diff(live, nodes, strs, dmf):
+    """first disagreement between the stand-in nodes of a record and the live nodes of the failure it was
+    built from (None if there is none): trace-only, independent of the model.  Strings are indices into
+    one table.  f_lineno is -3 where the frame is still running; a stand-in that keeps no positions ([])
+    is not compared on them."""
+    def show(n):
+        return 'File "%s", line %s, in %s' % (strs[n[0]], n[2], strs[n[1]])
+    k = min(len(live), dmf + 2)
+    if len(nodes) < k:
+        return 'the record has %d nodes for %d live frames' % (len(nodes), len(live))
+    for idx in range(k):
+        a, b = live[idx], nodes[idx]
+        for f, name in enumerate(NODE_FIELDS):
+            if name == 'f_lineno' and -3 in (a[f], b[f]):
+                continue
+            if f == 6 and b[f] == []:
+                continue
+            if a[f] != b[f]:
+                va, vb = (strs[a[f]], strs[b[f]]) if f < 2 else (a[f], b[f])
+                return ('frame %d of the failure is %s (co_firstlineno %s, tb_lasti %s); %s of that frame is %r, '
+                        'the record says %r%s' % (idx + 1, show(a), a[3], a[5], name, va, vb,
+                                                  ' (no entry for that instruction: the traceback module cannot '
+                                                  'format the record)' if vb == [-9, -9, -9, -9] else ''))
+    return None
+
+
+def ex_diff(real, got):
+    for idx, (a, b) in enumerate(zip(real, got)):
+        if a != b:
+            return ('entry %d: the traceback module formats the live traceback as File "%s", line %s, in %s '
+                    '(end line %s, columns %s-%s) and the record as File "%s", line %s, in %s (end line %s, '
+                    'columns %s-%s)' % (idx + 1, a[0], a[2], a[1], a[3], a[4], a[5], b[0], b[2], b[1], b[3], b[4], b[5]))
+    return 'extract_tb gives %d entries for the live traceback and %d for the record' % (len(real), len(got))
+
+
+def judge_seq(res, c, o, rep):
+    """a history: every record against the live traceback of ITS OWN failure"""
+    n = len(o['steps'])
+    raised = set()
+
+    step = [0]
+
+    def alarm(sig, what):
+        if sig not in raised:         # one alarm per signature and history
+            raised.add(sig)
+            res.alarms.append(dict(signature=sig, what=what, replay=rep, seq_step=step[0]))
+
+    for k, (st, so) in enumerate(zip(c['steps'], o['steps'])):
+        step[0] = k
+        where = ('record %d of a history of %d failures recorded one after the other in one process (%s, code '
+                 'compiled afresh under the file name %s; earlier steps: %s)'
+                 % (k + 1, n, json.dumps({x: st[x] for x in ('shape', 'pad', 'which', 'depth', 'alt', 'tail')
+                                          if st.get(x)}), so['file'],
+                    json.dumps([{x: p[x] for x in ('shape', 'pad', 'which') if p.get(x)} for p in c['steps'][:k]])))
+        if so.get('build_error'):
+            alarm('C12:record-construction-raises',
+                  'building the ExceptionInfo record from the live traceback raised %s: %s' % (so['build_error'], where))
+            continue
+        if so['error']:
+            alarm('C12:record-not-picklable', 'pickle round trip of the ExceptionInfo failed (%s): %s' % (so['error'], where))
+        for r, nodes in enumerate(so['nodes']):
+            d = node_diff(so['nodes_live'], nodes, so['strs'], o['dmf'])
+            if d:
+                alarm(SIG_STALE, 'the record describes another code object than the one that failed: %s, after %d '
+                                 'round trips: %s' % (where, r, d))
+                break
+        for r, ex in enumerate(so['ex']):
+            if isinstance(ex, str):
+                alarm('C12:traceback-object-unformattable',
+                      'traceback module cannot format the tb of the record (%s): %s, after %d round trips' % (ex, where, r))
+                break
+            if isinstance(so['real_ex'], list) and so['live_len'] <= o['dmf'] + 2 and ex != so['real_ex']:
+                alarm(SIG_STALE, 'the record describes another code object than the one that failed: %s, after %d '
+                                 'round trips: %s' % (where, r, ex_diff(so['real_ex'], ex)))
+                break
+        if so['fmt_text']:
+            alarm('C12:traceback-object-unformattable' if 'raised' in so['fmt_text'] else SIG_STALE,
+                  '%s: %s' % (so['fmt_text'], where))
+        bad = [v['fmt'] for v in so['views'] if v['fmt']]
+        if bad:
+            alarm('C12:traceback-object-unformattable', 'traceback module cannot format the received tb: %s: %s' % (bad[0], where))
+        if not so.get('text_names_raiser', True):
+            alarm('C12:text-does-not-name-raising-frame',
+                  'ExceptionInfo.traceback does not name the raising frame / exception: %s' % where)
+    return raised
+
+
+def shrink_seq(res):
+    """the first alarm about a history: try the two-step histories (one earlier step, the failing step) and
+    report the first that still raises the alarm -- every candidate is re-run on the real code"""
+    a = next((a for a in res.alarms if 'seq_step' in a and a['replay']['case']['kind'] == 'seq'), None)
+    if a is None or a['seq_step'] < 1 or len(a['replay']['case']['steps']) <= 2:
+        return
+    c, k = a['replay']['case'], a['seq_step']
+    cands = [dict(c, steps=[c['steps'][j], c['steps'][k]]) for j in range(k - 1, -1, -1)]
+    try:
+        outs = core.run_driver('einfo_driver.py', cands, timeout=300)
+    except Exception:       # noqa -- the unshrunk witness stands
+        return
+    for cand, out in zip(cands, outs):
+        if 'driver_error' in out:
+            continue
+
+        class _R:
+            alarms = []
+        _R.alarms = []
+        judge_seq(_R, cand, out, dict(case=cand, impl=slim(out)))
+        hit = next((b for b in _R.alarms if b['signature'] == a['signature']), None)
+        if hit:
+            a.update(what=hit['what'] + ' [shrunk from a history of %d failures]' % len(c['steps']),
+                     replay=hit['replay'], seq_step=hit['seq_step'])
+            return
 
 
 def short(c):
@@ -492,6 +721,7 @@ def judge(res, cases, outs, codes):
                                    detail=short(c) + ' :: ' + o['driver_error']))
             continue
         # monitors evaluated directly on the implementation's behaviour (Python side)
+        seq_raised = judge_seq(res, c, o, rep) if c['kind'] == 'seq' else set()
         if o.get('build_error'):
             # the task's exception is there, its live traceback is there -- and building the record
             # raised: in a worker this escapes the handler, the worker dies, the caller gets
@@ -529,6 +759,17 @@ def judge(res, cases, outs, codes):
                 if n is not None and n < len(c['env']) and c['env'][n] != 'ok':
                     continue
                 got = [m[4] for m in o['msgs'] if m[0] == 'info' and m[1] == r['job'] and m[2] == r['i']]
+                # the record the parent reads, formatted by the traceback module, against the REAL traceback
+                # of this very task (taken by the driver when the worker handed the record over)
+                if got and got[0]['type'] == le['cls'] and isinstance(orc.get('real_ex'), list) \
+                        and isinstance(got[0].get('ex'), list) and got[0]['ex'] != orc['real_ex'] \
+                        and sum(x[3] for x in orc['live']) <= o['dmf'] + 2:
+                    res.alarms.append(dict(
+                        signature=SIG_STALE,
+                        what='worker loop: the record sent for task %d of the script (job %d) describes another code '
+                             'object than the one that failed: %s on %s'
+                             % (c['script'].index(r) + 1, r['job'], ex_diff(orc['real_ex'], got[0]['ex']), short(c)),
+                        replay=rep))
                 if got and got[0]['cls'] == MEE and got[0]['type'] == MEE:
                     cause = ns_unp(orc, o['dmf'])
                     if cause is not None:
@@ -588,7 +829,8 @@ def judge(res, cases, outs, codes):
                                        replay=rep))
         elif mon:
             sig, what = MON.get(mon, ('monitor-%d' % mon, 'property monitor code %d' % mon))
-            res.alarms.append(dict(signature='C12:' + sig, what='%s on %s' % (what, short(c)), replay=rep))
+            if 'C12:' + sig not in seq_raised:      # (the trace-only monitor in judge_seq said it with details)
+                res.alarms.append(dict(signature='C12:' + sig, what='%s on %s' % (what, short(c)), replay=rep))
         if corr == 2:
             res.alarms.append(dict(signature='C12:differs-from-proved-model',
                                    what='type/args/text/tb chain or worker messages differ from the proved model on %s'
@@ -615,11 +857,14 @@ def nontrivial(c, o):
         return any(r is not None for r in c['script'])
     if c['kind'] == 'slots':
         return False
+    if c['kind'] == 'seq':
+        return len(o['steps']) >= 2
     return True
 
 
 def renderable(o):
-    return 'driver_error' not in o and not o.get('build_error')
+    return 'driver_error' not in o and not o.get('build_error') \
+        and not any(so.get('build_error') for so in o.get('steps', []))
 
 
 def correspond(res, n):
@@ -637,6 +882,13 @@ def correspond(res, n):
     idxmap = [i for i, o in enumerate(outs) if renderable(o)]
     codes = [(idxmap[i], code) for i, code in codes]
     judge(res, cases, outs, codes)
+    # a record that describes another code object: the shortest history first, shrunk to two steps if possible
+    # (a stale FIRST record of a history comes from an earlier case of this driver process: replaying that case
+    # alone need not reproduce it, so it is reported after those whose cause lies inside the history)
+    res.alarms.sort(key=lambda a: (1, 0, 0) if a['signature'] != SIG_STALE else
+                    (0, a.get('seq_step', 1) == 0,
+                     len(a['replay']['case'].get('steps', a['replay']['case'].get('script', [])))))
+    shrink_seq(res)
     # the expected finding D20 last, so that anything else is what gets reported first
     res.alarms.sort(key=lambda a: a['signature'] in (SIG_D20, SIG_NSVAL))
     # ... and "building the record raised" first: it is the cause of whatever else such a run shows
@@ -670,6 +922,26 @@ def correspond(res, n):
             endings[o['ending'][0]] = endings.get(o['ending'][0], 0) + 1
             unser += len(o['unser'])
             scripted += bool(c['env'])
+    # histories: steps that ran through a code object whose (file, name, first line) an EARLIER step of the
+    # same history ran through with another body (another raise line / instruction offset / position)
+    hist = dict(histories=0, steps=0, steps_through_equal_key_other_body=0, shapes={})
+    for c, o in ok:
+        if c['kind'] != 'seq':
+            continue
+        hist['histories'] += 1
+        seen = {}
+        for st, so in zip(c['steps'], o['steps']):
+            hist['steps'] += 1
+            hist['shapes'][st['shape']] = hist['shapes'].get(st['shape'], 0) + 1
+            keys = {}
+            for nd in so['nodes_live'][1:]:
+                keys.setdefault((so['strs'][nd[0]], so['strs'][nd[1]], nd[3]), set()).add((nd[2], nd[5], tuple(nd[6])))
+            if any(k in seen and not (body <= seen[k]) for k, body in keys.items()):
+                hist['steps_through_equal_key_other_body'] += 1
+            for k, body in keys.items():
+                seen.setdefault(k, set()).update(body)
+    hist['worker_scripts_with_recompiled_tasks'] = sum(
+        1 for c, o in ok if c['kind'] == 'wl' and any(r and 'seq' in r['spec'] for r in c['script']))
     distinct = len({json.dumps(c, sort_keys=True) for c, o in ok if nontrivial(c, o)})
     sample = [dict(case=c, impl=slim(o)) for c, o in ok if c['kind'] == 'wl' and o['unser']][:1]
     sample += [dict(case=c, impl=dict(live_len=o['live_len'], views=len(o['views']),
@@ -685,9 +957,14 @@ def correspond(res, n):
                      'generator, class body, under sorted(key=)/map, __traceback_hide__, chained exceptions), then '
                      'enumerated boundary cases (live depth limit+1..limit+4, base exceptions, RecursionError, D20 '
                      'witness; every unusual frame kind as raising frame and in between, through ExceptionInfo and '
-                     'through the worker loop); non-trivial = rt with >= 1 round trip and (args or more than 3 '
+                     'through the worker loop; HISTORIES (kind seq, and wl scripts with recompiled tasks): 2-6 failures '
+                     'recorded one after the other in one process through code compiled afresh per step under one file '
+                     'name -- def / reloaded module / lambdas on one line / generator expressions on one line / generated '
+                     'methods / real dataclasses --, so that later steps run through other code objects with an equal '
+                     '(co_filename, co_name, co_firstlineno), each record compared node by node and as formatted by the '
+                     'traceback module with the live traceback of its own failure); non-trivial = rt with >= 1 round trip and (args or more than 3 '
                      'frames), wl with >= 1 task, every tb/mee/ns; distinct by canonical JSON',
-                unusual_frame_kinds=frame_kinds, live_frames_without_key=missing_keys,
+                unusual_frame_kinds=frame_kinds, live_frames_without_key=missing_keys, histories=hist,
                 case_kinds=kinds, exception_classes=classes, live_depth_histogram=depths,
                 roundtrips_histogram=rounds, truncated_tracebacks=trunc,
                 worker_endings=endings, worker_unserialisable_results=unser,
@@ -695,7 +972,7 @@ def correspond(res, n):
 
 
 def run(res):
-    res.proof_step('Props/C12.v', extra_targets=['Model/EInfo.vo'], kernels_needed=['K_einfo'])
+    res.proof_step('Props/C12.v', extra_targets=['Model/EInfo.vo', 'Model/EInfoSeq.vo'], kernels_needed=['K_einfo'])
     n = 200 if res.tier == 'quick' else 6000
     if res.broken:
         n = max(n, 1500)      # failing-input search
@@ -711,6 +988,10 @@ def run(res):
         'itself with the repr of what pickling the value raises); in wl cases which value fails is taken from the '
         'driver\'s own pickling of the LIVE frames\' values (props ns_unp mirrors chain_pickle_err o copy_ltb, which '
         'CaseNsPut compares with the real pickler on the record for the same frame kinds)',
+        'histories: that no constructor of einfo.py keeps anything between two calls is (a) structural -- the translator classifies the '
+        'class-level bindings and constructor statements of the record classes from the syntax (C12_code_standins_keep_no_state; state kept '
+        'elsewhere, e.g. in an attribute of a function object or via a mutated builtin, is outside that scan) -- and (b) tested by the seq '
+        'cases; the model-level history theorems hold by construction of the model',
         'repr() of anything but str/int/None/bool/tuple/list is an oracle; str code points ASCII (a few printable non-ASCII are exercised)',
         'exception classes whose constructor does not rebuild the object from .args (the statement says "picklable") are outside',
         'the worker is run in-process with synq=None and a scripted wait_for_job; put failures other than pickling are scripted by call index',
@@ -737,10 +1018,20 @@ def replay(path):
         return 1
     if c['kind'] == 'wl' and out['ending'][0] == 'crash' and not c['env']:
         print('Worker.workloop died with %s although no put was scripted to fail' % out['ending'][1])
+    rc = 0
+    if c['kind'] == 'seq':
+        class _R:
+            alarms = []
+        judge_seq(_R, c, out, None)
+        for a in _R.alarms:
+            print('  %s: %s' % (a['signature'], a['what']))
+        rc = 1 if _R.alarms else 0
+        if not renderable(out):
+            return rc
     codes, _ = core.coq_eval('C12r', HEADER, [[to_coq(c, out)]])
     if not codes:
         print('model agrees, property monitor silent')
-        return 0
+        return rc
     code = codes[0][1]
     print('correspondence code %d (0 agree, 1 internal detail, 2 property observable), monitor code %d'
           % (code % 10, code // 10))
